@@ -272,6 +272,9 @@ func main() {
 			return Op{}, false
 		}, nil)
 	} else {
+		if tier == "thorough" {
+			r.exhaustive()
+		}
 		nHist, nSteps := 500, 90
 		if tier == "thorough" {
 			nHist, nSteps = 12000, 100
@@ -279,7 +282,7 @@ func main() {
 		nHist = envInt("VERIF_HISTORIES", nHist)
 		nSteps = envInt("VERIF_STEPS", nSteps)
 		for hI := 0; hI < nHist; hI++ {
-			g := &Gen{r: &RNG{s: seed*0x9E3779B97F4A7C15 + uint64(hI)*0xD1B54A32D192ED03 + 1}, allowReattach: hI%4 == 3, allowTwoIface: hI%5 == 4, invalidPct: 88, buildSteps: 10}
+			g := &Gen{r: &RNG{s: seed*0x9E3779B97F4A7C15 + uint64(hI)*0xD1B54A32D192ED03 + 1}, allowReattach: hI%4 == 3, allowTwoIface: hI%5 == 4, invalidPct: 96, buildSteps: 10}
 			pre := g.prefix()
 			var queue, pending []Op
 			queued := false
@@ -351,4 +354,51 @@ func main() {
 			fmt.Printf("FAIL %s %s: %s\n", r.fails[k].Prop, r.fails[k].Sig, r.fails[k].Detail)
 		}
 	}
+}
+
+// exhaustive: every history of length <= 3 over a small universe (1 network, 1 bus, 2 nodes with one
+// interface each, 2 messages, 1 enum with 2 values) and a fixed alphabet of concrete calls with
+// colliding keys. Thorough tier only.
+func (r *Run) exhaustive() {
+	prefix := []Op{
+		op("NewNetwork"), op("NewBus", 0), op("NewNode", 0, 0, 1), op("NewNode", 1, 1, 1), // 1 net, 2 bus, 3 node,4 if, 5 node,6 if
+		op("NewMessage", 0, 0, 8), op("NewMessage", 0, 0, 8), // 7, 8: same name and id
+		op("NewEnum"), op("NewEnumValue", 0, 0), op("NewEnumValue", 0, 0), // 9, 10, 11
+		op("NetAddBus", 1, 2), op("BusAddNodeInterface", 2, 4), op("IfAddSent", 4, 7), op("EnumAddValue", 9, 10),
+	}
+	alphabet := []Op{
+		op("BusAddNodeInterface", 2, 6), op("BusRemoveNodeInterface", 2, 3), op("BusRemoveNodeInterface", 2, 5),
+		op("NodeUpdateName", 5, 0), op("NodeUpdateID", 5, 0), op("NodeUpdateName", 3, 1), op("NodeUpdateID", 3, 1),
+		op("IfAddSent", 4, 8), op("IfAddSent", 6, 8), op("IfRemoveSent", 4, 7), op("IfRemoveAllSent", 4),
+		op("MsgUpdateName", 8, 1), op("MsgUpdateName", 7, 1), op("MsgUpdateID", 8, 1), op("MsgUpdateID", 7, 1),
+		op("MsgSetStatic", 7, 5), op("MsgSetStatic", 8, 5), op("MsgAddReceiver", 7, 6), op("MsgAddReceiver", 7, 4),
+		op("MsgRemoveReceiver", 7, 5), op("EnumAddValue", 9, 11), op("EnumRemoveValue", 9, 10),
+		op("EvalUpdateName", 11, 1), op("EvalUpdateIndex", 11, 1), op("EvalUpdateName", 10, 1), op("EvalUpdateIndex", 10, 1),
+		op("NodeRemoveInterface", 3, 0), op("BusRemoveAllNodeInterfaces", 2), op("NetRemoveAllBuses", 1),
+	}
+	idx := 1000000
+	var rec func(seq []Op, depth int)
+	rec = func(seq []Op, depth int) {
+		if depth > 0 {
+			idx++
+			all := append(append([]Op{}, prefix...), seq...)
+			r.runHistory(idx, func(p *Pool, step int) (Op, bool) {
+				for step < len(all) {
+					o := all[step]
+					if taintOf(p, o) != "" { // never trigger an open finding here: stop the history
+						return Op{}, false
+					}
+					return o, true
+				}
+				return Op{}, false
+			}, nil)
+		}
+		if depth == 3 {
+			return
+		}
+		for _, o := range alphabet {
+			rec(append(append([]Op{}, seq...), o), depth+1)
+		}
+	}
+	rec(nil, 0)
 }
